@@ -8,7 +8,7 @@ here = os.path.dirname(os.path.dirname(os.path.abspath(__file__)))
 sys.path.insert(0, here)
 from pyvc.run import run_bundle
 root = sys.argv[1]
-bundles = sys.argv[2:] or ['ledger', 'model', 'box', 'radii', 'table', 'jsonrt', 'inputs', 'paramcheck', 'passthru', 'vecs', 'owner', 'coord', 'dirlen', 'precond', 'strtot', 'svdfloor']
+bundles = sys.argv[2:] or ['ledger', 'model', 'box', 'radii', 'table', 'jsonrt', 'inputs', 'paramcheck', 'passthru', 'vecs', 'owner', 'coord', 'dirlen', 'precond', 'strtot', 'svdfloor', 'trlin']
 known = {k['obligation'] for k in json.load(open(os.path.join(here, 'known_findings.json'))) if k.get('status') == 'open'}
 tot = {'refuted': 0, 'undecided': 0, 'cover': 0, 'unsupported': 0, 'obligations': 0}
 for b in bundles:
